@@ -255,4 +255,81 @@ theorem mapFibers_get (g : List α → List α) (glen : Nat → Nat) (hu : Unifo
     unfold fiber
     simp only [List.set_cons_succ, get_node, List.getElem?_eq_getElem hil, Option.bind_some]
 
+/-! ### shape of the result -/
+
+/-- every sub-array `pointwise` produces has the shape of the inputs -/
+theorem pointwise_shape (g : List α → List α) (glen : Nat → Nat) (hu : Uniform g glen) :
+    ∀ (sh : List Nat) (xs : List (Arr α)), (∀ x ∈ xs, hasShape sh x = true) → AllPos sh →
+      ∀ y ∈ pointwise g sh xs, hasShape sh y = true
+  | [], xs, _, _ => by
+    intro y hy
+    simp only [pointwise, List.mem_map] at hy
+    obtain ⟨c, _, rfl⟩ := hy
+    rfl
+  | m :: r, xs, h, hp => by
+    intro y hy
+    have hm : 0 < m := hp m (by simp)
+    have hpr : AllPos r := fun n hn => hp n (by simp [hn])
+    simp only [pointwise, List.mem_map, List.mem_range] at hy
+    obtain ⟨i, hi, rfl⟩ := hy
+    -- all the per-position results have the same length
+    have hlen : ∀ j, j < m → (pointwise g r (column j xs)).length = glen xs.length := by
+      intro j hj
+      rw [pointwise_length g glen hu r (column j xs) (column_shape r m j xs h) hpr, column_length r m j hj xs h]
+    have hhead : ((List.range m).map (fun j => pointwise g r (column j xs))).headD [] = pointwise g r (column 0 xs) := by
+      cases m with
+      | zero => omega
+      | succ m => simp [List.range_succ_eq_map]
+    rw [hhead, hlen 0 hm] at hi
+    simp only [hasShape, Bool.and_eq_true, beq_iff_eq]
+    constructor
+    · -- one element per position of the next axis
+      rw [List.filterMap_map]
+      have : ∀ (l : List Nat), (∀ j ∈ l, j < m) →
+          (l.filterMap ((fun r' : List (Arr α) => r'[i]?) ∘ fun j => pointwise g r (column j xs))).length = l.length := by
+        intro l
+        induction l with
+        | nil => intro _; rfl
+        | cons j l ih =>
+          intro hl
+          have hj := hl j (by simp)
+          have hij : i < (pointwise g r (column j xs)).length := by rw [hlen j hj]; exact hi
+          simp only [List.filterMap_cons, Function.comp, List.getElem?_eq_getElem hij, List.length_cons]
+          rw [← ih (fun k hk => hl k (by simp [hk]))]
+      rw [this (List.range m) (fun j hj => List.mem_range.mp hj), List.length_range]
+    · apply hasShapeL_of_forall
+      intro z hz
+      obtain ⟨rr, hrr, hz'⟩ := List.mem_filterMap.mp hz
+      obtain ⟨j, hj, rfl⟩ := List.mem_map.mp hrr
+      exact pointwise_shape g glen hu r (column j xs) (column_shape r m j xs h) hpr z (List.mem_of_getElem? hz')
+
+/-- **shape of `mapFibers`**: the axis the function runs along takes the function's output length, every other
+axis keeps its length -/
+theorem mapFibers_hasShape (g : List α → List α) (glen : Nat → Nat) (hu : Uniform g glen) :
+    ∀ (sh : List Nat) (k : Nat) (a : Arr α), hasShape sh a = true → AllPos sh → k < sh.length →
+      hasShape (sh.set k (glen (sh.getD k 0))) (mapFibers g sh k a) = true
+  | [], k, _, _, _, hk => by simp at hk
+  | n :: rest, 0, leaf c, h, _, _ => by simp [hasShape] at h
+  | n :: rest, k + 1, leaf c, h, _, _ => by simp [hasShape] at h
+  | n :: rest, 0, node xs, h, hp, _ => by
+    simp only [hasShape, Bool.and_eq_true, beq_iff_eq] at h
+    have hall := forall_of_hasShapeL rest xs h.2
+    have hpr : AllPos rest := fun m hm => hp m (by simp [hm])
+    simp only [mapFibers, List.set_cons_zero, List.getD_cons_zero, hasShape, Bool.and_eq_true, beq_iff_eq]
+    refine ⟨?_, ?_⟩
+    · rw [pointwise_length g glen hu rest xs hall hpr, h.1]
+    · exact hasShapeL_of_forall rest _ (pointwise_shape g glen hu rest xs hall hpr)
+  | n :: rest, k + 1, node xs, h, hp, hk => by
+    simp only [hasShape, Bool.and_eq_true, beq_iff_eq] at h
+    have hall := forall_of_hasShapeL rest xs h.2
+    have hpr : AllPos rest := fun m hm => hp m (by simp [hm])
+    have hk' : k < rest.length := by simpa using hk
+    simp only [mapFibers, List.set_cons_succ, List.getD_cons_succ, hasShape, Bool.and_eq_true, beq_iff_eq,
+      List.length_map]
+    refine ⟨h.1, ?_⟩
+    apply hasShapeL_of_forall
+    intro y hy
+    obtain ⟨x, hx, rfl⟩ := List.mem_map.mp hy
+    exact mapFibers_hasShape g glen hu rest k x (hall x hx) hpr hk'
+
 end Arr
